@@ -229,6 +229,10 @@ impl Executor {
                 // to avoid use-after-free issues with concurrent wakers.
                 // The task ran to its end: its `JoinHandle` waker, if any, was woken by `run`.
                 drop(unsafe { task.drop() });
+                // A waker on another thread may have loaded the shared pointer just before it
+                // was cleared; once the task is gone from the queue nothing else would wait
+                // for that waker before the executor frees the shared state.
+                task.wait_for_scheduling();
                 queue.remove(id);
             } else {
                 queue.reset(id, task);
